@@ -290,7 +290,7 @@ pub fn dispatch(f: &[&str]) -> String {
         "transport.stub" => crate::transports::stub(f[1], f[2], f[3]),
         "transport.file" => crate::transports::file(f[1], f[2], f[3]),
         "transport.sendmail" => crate::transports::sendmail(f[1], f[2], f[3], f[4]),
-        x if x.starts_with("c19.") => crate::misc::dispatch(f),
+        x if x.starts_with("c19.") || x == "msg.full" => crate::misc::dispatch(f),
         "dkim.sign" => crate::dkim::sign(f),
         "mime.format" => crate::mime::format(f[1]),
         "mime.message" => crate::mime::message(f[1]),
